@@ -49,6 +49,8 @@ def run(ctx):
 
     def edges():
         out["e"] = vlib.run_tlc(ctx, "MCAnte", ecfg, tags=("EDGE",), timeout=3000, workers=4, jvm=JVM)
+        if not quick:   # the 2-submission graph with same-block submissions as well
+            out["e2"] = vlib.run_tlc(ctx, "MCAnte", "Ante_qe.cfg", tags=("EDGE",), timeout=3000, workers=4, jvm=JVM)
 
     def sims():
         out["s"] = vlib.run_tlc(ctx, "MCAnte", "Ante_simq.cfg" if quick else "Ante_sim.cfg", mode="simulate", simulate=n, depth=9, tags=("TRACE",), timeout=1800,
@@ -75,6 +77,11 @@ def run(ctx):
     ctx.add_tlc(rs, "simulate, %d submissions" % (5 if quick else 7))
     ctx.cov["edges_emitted"] = len(r.traces)
     behs = vlib.dedup_prefix(r.traces)
+    if "e2" in out:
+        vlib.require_model_ok(out["e2"], "Ante_qe.cfg")
+        ctx.add_tlc(out["e2"], "exhaustive + one behaviour per edge, Ante_qe.cfg")
+        ctx.cov["edges_emitted"] += len(out["e2"].traces)
+        behs += [b for b in vlib.dedup_prefix(out["e2"].traces) if any(s.get("where") == "same" for s in b)]
     if quick:
         # all resubmissions of an accepted transaction, a few behaviours of every input class, and a seeded sample of the rest
         rng = random.Random(ctx.seed)
